@@ -7,6 +7,7 @@
 import LLTD.Model.World
 import Driver.Parse
 import Driver.Block
+import Driver.Check
 
 open LLTD
 
@@ -339,7 +340,10 @@ partial def loop (h : IO.FS.Stream) (out : IO.FS.Stream) (s : DState) : IO DStat
   let line ← h.getLine
   if line.isEmpty then return s
   let l := (line.dropEndWhile (fun c => c == '\n' || c == '\r')).toString
-  if l.isEmpty || l.startsWith "%" then loop h out s
+  if l.startsWith "%%case" then
+    out.putStrLn l
+    loop h out {}
+  else if l.isEmpty || l.startsWith "%" then loop h out s
   else
     out.putStrLn ("# " ++ l)
     let (s', lines) := step s (tokens l)
@@ -349,7 +353,59 @@ partial def loop (h : IO.FS.Stream) (out : IO.FS.Stream) (s : DState) : IO DStat
 
 end Driver
 
+/-- split a transcript into cases of steps -/
+partial def readCases (h : IO.FS.Stream) : IO (Array (String × Array Driver.Check.Step)) := do
+  let mut cases : Array (String × Array Driver.Check.Step) := #[]
+  let mut curId := ""
+  let mut steps : Array Driver.Check.Step := #[]
+  let mut curOp : Option (List String) := none
+  let mut curOut : Array String := #[]
+  let mut started := false
+  repeat
+    let line ← h.getLine
+    if line.isEmpty then break
+    let l := (line.dropEndWhile (fun c => c == '\n' || c == '\r')).toString
+    if l.startsWith "%%case" then
+      if let some op := curOp then steps := steps.push { op := op, out := curOut.toList }
+      if started then cases := cases.push (curId, steps)
+      curId := (l.drop 7).toString
+      steps := #[]; curOp := none; curOut := #[]; started := true
+    else if l.startsWith "# " then
+      if let some op := curOp then steps := steps.push { op := op, out := curOut.toList }
+      curOp := some (Driver.tokens (l.drop 2).toString); curOut := #[]; started := true
+    else if l.startsWith "end live=" || l.startsWith "stats " then
+      pure ()
+    else
+      curOut := curOut.push l
+  if let some op := curOp then steps := steps.push { op := op, out := curOut.toList }
+  if started then cases := cases.push (curId, steps)
+  return cases
+
+def checkMain (prop : String) (path : String) : IO Unit := do
+  let h ← IO.FS.Handle.mk path IO.FS.Mode.read
+  let cases ← readCases (IO.FS.Stream.ofHandle h)
+  let stdout ← IO.getStdout
+  let f : Option (List Driver.Check.Step → Option (Nat × String)) := match prop with
+    | "C11" => some Driver.Check.checkC11
+    | "C12" => some Driver.Check.checkC12
+    | "C13" => some Driver.Check.checkC13
+    | "C14" => some Driver.Check.checkC14
+    | "C15" => some Driver.Check.checkC15
+    | "C16" => some Driver.Check.checkC16
+    | _ => none
+  match f with
+  | none => stdout.putStrLn s!"no-predicate {prop}"
+  | some f =>
+    for (cid, steps) in cases do
+      match f steps.toList with
+      | none => stdout.putStrLn s!"case {cid} OK"
+      | some (i, msg) => stdout.putStrLn s!"case {cid} FAIL {i} {msg}"
+  stdout.flush
+
 def main (args : List String) : IO Unit := do
+  if let ["check", prop, path] := args then
+    checkMain prop path
+    return
   let stdin ← IO.getStdin
   let stdout ← IO.getStdout
   let input ← match args with
